@@ -7,6 +7,7 @@ package main
 import (
 	"bufio"
 	"encoding/json"
+	"errors"
 	"flag"
 	"fmt"
 	"math"
@@ -20,19 +21,89 @@ import (
 	"github.com/pinealctx/neptune/idgen/random"
 	"github.com/pinealctx/neptune/tex"
 	"github.com/pinealctx/neptune/vcode"
+	"google.golang.org/grpc/codes"
 	"google.golang.org/grpc/status"
 
 	"verif/harness/internal/tr"
 )
 
 // ---------------------------------------------------------------- fake SMS gateway
-type msg struct{ area, phone, code string }
+// code is the string as handed over (retained, no copy); at is a private copy taken at that moment
+// (what a real gateway transmits).
+type msg struct{ area, phone, code, at string }
 
-type fakeSMS struct{ got []msg }
+// The gateway is a callback of the code under test: besides delivering it can fail in every way
+// a callback can (plain error, grpc status error, one of vcode's own error values, panic).
+type fakeSMS struct {
+	got    []msg
+	fail   string // what the next SendCode does: "" deliver, "err", "status", "own", "panic"
+	failed bool   // the gateway was contacted and failed
+}
+
+type gwPanic struct{}
 
 func (f *fakeSMS) SendCode(areaCode, phone, code string) error {
-	f.got = append(f.got, msg{areaCode, phone, code})
+	f.got = append(f.got, msg{areaCode, phone, code, strings.Clone(code)})
+	switch f.fail {
+	case "err":
+		f.failed = true
+		return errors.New("sms gateway: connection refused")
+	case "status":
+		f.failed = true
+		return status.Error(codes.Unavailable, "sms.gateway.unavailable")
+	case "own":
+		f.failed = true
+		return vcode.ErrSendTooFreq
+	case "panic":
+		f.failed = true
+		panic(gwPanic{})
+	}
 	return nil
+}
+
+// guard runs one call of the code under test: a panic is recovered, a call that does not come back
+// within the watchdog time is reported as "hang" (the goroutine is abandoned; the harness then ends
+// the run in an orderly way, see `hung`).  Both are observations for the spec, never a harness error.
+var hung bool
+
+const watchdog = 20 * time.Second
+
+func guard(fn func()) (out string, pv interface{}) {
+	done := make(chan struct{})
+	go func() {
+		defer close(done)
+		defer func() {
+			if x := recover(); x != nil {
+				out, pv = fmt.Sprintf("panic: %v", x), x
+			}
+		}()
+		fn()
+	}()
+	t := time.NewTimer(watchdog)
+	defer t.Stop()
+	select {
+	case <-done:
+		return out, pv
+	case <-t.C:
+		hung = true
+		return "hang", nil
+	}
+}
+
+func spin() {
+	for t0 := time.Now(); time.Since(t0) < 2*time.Microsecond; {
+	}
+}
+
+func clamp(v int) int {
+	const lim = 1000000 // no history has that many calls: beyond it every value behaves alike
+	if v > lim {
+		return lim
+	}
+	if v < -lim {
+		return -lim
+	}
+	return v
 }
 
 // ---------------------------------------------------------------- configuration (regimes)
@@ -44,12 +115,19 @@ type regime struct {
 	Win       bool `json:"win"` // true: one counting window for ever; false: every send renews it
 	MaxCount  int  `json:"maxCount"`
 	MaxVerify int  `json:"maxVerify"`
+	// not part of a plan: chosen by the harness
+	cache   int64 // CacheSize (0 = default, large)
+	extreme bool  // durations may also be drawn from the sub-microsecond values
 }
 
 var (
 	huge    = []time.Duration{time.Hour, 24 * time.Hour, 365 * 24 * time.Hour, math.MaxInt64}
 	neg     = []time.Duration{-1, -time.Second, -time.Hour, math.MinInt64}
 	nonPos  = []time.Duration{0, -1, -time.Hour, math.MinInt64}
+	// sub-microsecond values: with the harness letting 2us pass after every send they fall into the
+	// same regimes (lifetime always over / interval always respected / window always renewed)
+	tinyOver = []time.Duration{0, 1, 100}
+	tinyGap  = []time.Duration{1, 100}
 	digits  = "0123456789"
 	phonesA = []string{"23", "3", "13800138000", "5550100", "007", "9", "4915112345678", "1234", "0"}
 	areasA  = []string{"1", "12", "86", "49", "", "001"}
@@ -57,27 +135,43 @@ var (
 
 func pick(rng *rand.Rand, ds []time.Duration) time.Duration { return ds[rng.Intn(len(ds))] }
 
-func (g regime) config(rng *rand.Rand) (*vcode.Config, tr.E) {
-	c := &vcode.Config{CacheSize: 1 << 16, Mock: g.Mock, CodeLen: g.Len, MaxCount: g.MaxCount,
+func (g regime) config(rng *rand.Rand) (*vcode.Config, tr.E, bool) {
+	size := g.cache
+	if size == 0 {
+		size = 1 << 16
+	}
+	c := &vcode.Config{CacheSize: size, Mock: g.Mock, CodeLen: g.Len, MaxCount: g.MaxCount,
 		MaxVerifyCount: g.MaxVerify}
 	var ttl, gap, win time.Duration
+	tiny := false
+	sub := func() bool { return g.extreme && rng.Intn(3) == 0 }
 	if g.TTL {
 		ttl = pick(rng, huge)
+	} else if sub() {
+		ttl, tiny = pick(rng, tinyOver), true
 	} else {
 		ttl = pick(rng, neg)
 	}
-	if g.Gap {
-		gap = pick(rng, nonPos)
-	} else {
+	if !g.Gap {
 		gap = pick(rng, huge)
+	} else if sub() {
+		gap, tiny = pick(rng, tinyGap), true
+	} else {
+		gap = pick(rng, nonPos)
 	}
 	if g.Win {
 		win = pick(rng, huge)
+	} else if g.MaxCount >= 0 && sub() {
+		// (with a negative MaxCount the very first send of a pair would meet a window that is
+		// exactly 0ns old: only strictly negative durations renew it for certain)
+		win, tiny = pick(rng, tinyOver), true
 	} else {
 		win = pick(rng, neg)
 	}
 	c.TTL, c.MinInterval, c.CounterDuration = tex.Duration(ttl), tex.Duration(gap), tex.Duration(win)
-	return c, tr.E{"ttl": ttl.String(), "min_interval": gap.String(), "counter_duration": win.String()}
+	return c, tr.E{"ttl": ttl.String(), "min_interval": gap.String(), "counter_duration": win.String(),
+		"cache_size": fmt.Sprint(size), "max_count": fmt.Sprint(g.MaxCount),
+		"max_verify": fmt.Sprint(g.MaxVerify)}, tiny
 }
 
 // ---------------------------------------------------------------- one VCLogic lifetime
@@ -90,24 +184,89 @@ type pstate struct {
 	has, had bool
 }
 
-type inst struct {
-	w     *tr.W
-	g     regime
-	sms   *fakeSMS
-	logic vcode.VCLogic
-	ps    map[pair]*pstate
-	order []pair // pairs in order of first successful send
-	rng   *rand.Rand
+// rec is one call as the harness saw it.  Strings are kept AS RETURNED / AS CAPTURED (no copy): for
+// half of the histories they are rendered into the trace only when the history is over, so that a
+// result that aliases memory the library reuses shows up as a changed record.
+type rec struct {
+	op         string
+	p          pair
+	r, class   string
+	hash       string
+	hashAt     string // private copy of the returned hash, taken at return
+	sms        []msg
+	code       string
+	cref, href string
 }
 
-func newInst(w *tr.W, rng *rand.Rand, g regime, src string) *inst {
-	cfg, raw := g.config(rng)
-	sms := &fakeSMS{}
-	in := &inst{w: w, g: g, sms: sms, ps: map[pair]*pstate{}, rng: rng}
-	in.logic = vcode.NewSimpleLogic(cfg, sms, nil)
-	w.Emit(tr.E{"ev": "reset", "mock": g.Mock, "len": g.Len, "ttl": g.TTL, "gap": g.Gap, "win": g.Win,
-		"maxCount": g.MaxCount, "maxVerify": g.MaxVerify, "src": src, "durations": raw})
+func (x *rec) render() tr.E {
+	if x.op == "send" {
+		sms := make([]tr.E, 0, len(x.sms))
+		stable := x.hash == x.hashAt // what was returned / handed over still reads the same
+		for _, m := range x.sms {
+			sms = append(sms, tr.E{"area": tr.Str(m.area), "phone": tr.Str(m.phone), "code": tr.Str(m.code)})
+			stable = stable && m.code == m.at
+		}
+		return tr.E{"ev": "call", "a": tr.E{"op": "send", "p": pj(x.p), "r": x.r, "err": x.class,
+			"hash": tr.Str(x.hash), "sms": sms, "stable": stable}}
+	}
+	return tr.E{"ev": "call", "a": tr.E{"op": "verify", "p": pj(x.p), "code": tr.Str(x.code),
+		"hash": tr.Str(x.hash), "r": x.r, "err": x.class, "cref": x.cref, "href": x.href}}
+}
+
+type inst struct {
+	w       *tr.W
+	g       regime
+	sms     *fakeSMS
+	logic   vcode.VCLogic
+	ps      map[pair]*pstate
+	order   []pair // pairs in order of first successful send
+	rng     *rand.Rand
+	tiny    bool     // sub-microsecond durations in force: let time pass after a send
+	late    bool     // render when the history is over
+	reset   tr.E     // (late) the reset event
+	pending []*rec   // (late) calls not yet rendered
+	dead    bool     // a call hung: no further calls on this instance
+}
+
+func newInst(w *tr.W, rng *rand.Rand, g regime, src string, late bool) *inst {
+	cfg, raw, tiny := g.config(rng)
+	return newInstOn(w, rng, g, src, late, cfg, raw, tiny, &fakeSMS{})
+}
+
+// newInstOn builds a logic on a given Config and gateway (which a caller may share between logics).
+func newInstOn(w *tr.W, rng *rand.Rand, g regime, src string, late bool, cfg *vcode.Config, raw tr.E,
+	tiny bool, sms *fakeSMS) *inst {
+	in := &inst{w: w, g: g, sms: sms, ps: map[pair]*pstate{}, rng: rng, tiny: tiny, late: late}
+	// the third argument is ignored by the code today; a usable cache of the configured size is
+	// passed so that honouring it would not change anything the property speaks about
+	in.logic = vcode.NewSimpleLogic(cfg, sms, vcode.NewSimpleCache(cfg.CacheSize))
+	in.reset = tr.E{"ev": "reset", "mock": g.Mock, "len": g.Len, "ttl": g.TTL, "gap": g.Gap, "win": g.Win,
+		"maxCount": clamp(g.MaxCount), "maxVerify": clamp(g.MaxVerify), "src": src, "durations": raw,
+		"late": late}
+	if !late {
+		w.Emit(in.reset)
+	}
 	return in
+}
+
+func (in *inst) log(x *rec) {
+	if in.late {
+		in.pending = append(in.pending, x)
+		return
+	}
+	in.w.Emit(x.render())
+}
+
+// flush ends the history.
+func (in *inst) flush() {
+	if !in.late {
+		return
+	}
+	in.w.Emit(in.reset)
+	for _, x := range in.pending {
+		in.w.Emit(x.render())
+	}
+	in.pending = nil
 }
 
 func pj(p pair) tr.E { return tr.E{"area": tr.Str(p.area), "phone": tr.Str(p.phone)} }
@@ -146,35 +305,43 @@ func mockCode(phone string, n int) string {
 	return strings.Repeat("0", n-len(phone)) + phone
 }
 
-func (in *inst) send(p pair) {
-	in.sms.got = in.sms.got[:0]
-	var hash string
-	var err error
-	var pan string
-	func() {
-		defer func() {
-			if x := recover(); x != nil {
-				pan = fmt.Sprintf("panic: %v", x)
-			}
-		}()
-		hash, err = in.logic.SendSMSCode(p.area, p.phone)
-	}()
-	r, class := "ok", "none"
-	if pan != "" {
-		r, class = "panic", pan
-	} else if err != nil {
-		r, class = "refused", sendClass(err)
-	}
-	sms := make([]tr.E, 0, len(in.sms.got))
-	for _, m := range in.sms.got {
-		sms = append(sms, tr.E{"area": tr.Str(m.area), "phone": tr.Str(m.phone), "code": tr.Str(m.code)})
-	}
-	in.w.Emit(tr.E{"ev": "call", "a": tr.E{"op": "send", "p": pj(p), "r": r, "err": class,
-		"hash": tr.Str(hash), "sms": sms}})
-	if r != "ok" {
+func (in *inst) send(p pair) { in.sendVia(p, "") }
+
+// sendVia: one SendSMSCode call; gw tells the gateway how to behave if it is contacted.
+func (in *inst) sendVia(p pair, gw string) {
+	if in.dead {
 		return
 	}
-	// remember what to present later (inputs of later verifications)
+	in.sms.got, in.sms.fail, in.sms.failed = nil, gw, false // a fresh slice: records keep the old one
+	var hash string
+	var err error
+	out, pv := guard(func() { hash, err = in.logic.SendSMSCode(p.area, p.phone) })
+	in.sms.fail = ""
+	r, class := "ok", "none"
+	_, gwp := pv.(gwPanic)
+	switch {
+	case out == "hang":
+		r, class, in.dead = "hang", "no return within the watchdog time", true
+	case out != "" && !(gwp && in.sms.failed):
+		r, class = "panic", out
+	case in.sms.failed: // the gateway was reached and failed; the caller got its failure (or nothing)
+		r, class = "gw", "gateway "+gw
+		if err != nil {
+			class += ": " + err.Error()
+		}
+	case err != nil:
+		r, class = "refused", sendClass(err)
+	}
+	in.log(&rec{op: "send", p: p, r: r, class: class, hash: hash, hashAt: strings.Clone(hash),
+		sms: in.sms.got})
+	if in.tiny {
+		spin()
+	}
+	if r != "ok" && r != "gw" {
+		return
+	}
+	// remember what to present later (inputs of later verifications; after a gateway failure the
+	// new code is tried as well - whether it is in force is for the spec to find out)
 	st := in.ps[p]
 	if st == nil {
 		st = &pstate{}
@@ -194,24 +361,21 @@ func (in *inst) send(p pair) {
 }
 
 func (in *inst) verify(p pair, code, hash, cref, href string) {
+	if in.dead {
+		return
+	}
 	var err error
-	var pan string
-	func() {
-		defer func() {
-			if x := recover(); x != nil {
-				pan = fmt.Sprintf("panic: %v", x)
-			}
-		}()
-		err = in.logic.VerifySMSCode(p.area, p.phone, code, hash)
-	}()
+	out, _ := guard(func() { err = in.logic.VerifySMSCode(p.area, p.phone, code, hash) })
 	r, class := "ok", "none"
-	if pan != "" {
-		r, class = "panic", pan
-	} else if err != nil {
+	switch {
+	case out == "hang":
+		r, class, in.dead = "hang", "no return within the watchdog time", true
+	case out != "":
+		r, class = "panic", out
+	case err != nil:
 		r, class = verifyClass(err)
 	}
-	in.w.Emit(tr.E{"ev": "call", "a": tr.E{"op": "verify", "p": pj(p), "code": tr.Str(code),
-		"hash": tr.Str(hash), "r": r, "err": class, "cref": cref, "href": href}})
+	in.log(&rec{op: "verify", p: p, r: r, class: class, code: code, hash: hash, cref: cref, href: href})
 }
 
 // other pair with a code in force (first in order of first send)
@@ -230,13 +394,19 @@ func (in *inst) badCode(p pair) string {
 	if st != nil && st.has && st.cur.code != "" {
 		base = st.cur.code
 	}
-	switch in.rng.Intn(6) {
+	switch in.rng.Intn(9) {
 	case 0:
 		return "!"
 	case 1:
 		return ""
 	case 2:
 		return base + "0" // one too long
+	case 6:
+		return base + base // the right token, then more
+	case 7:
+		return " " + base
+	case 8:
+		return base + " "
 	case 3:
 		if len(base) > 0 {
 			return base[:len(base)-1] // one too short
@@ -263,11 +433,15 @@ func (in *inst) badHash(p pair) string {
 	if st != nil && st.has && st.cur.hash != "" {
 		base = st.cur.hash
 	}
-	switch in.rng.Intn(6) {
+	switch in.rng.Intn(8) {
 	case 0:
 		return ""
 	case 1:
 		return "0"
+	case 6:
+		return base + base
+	case 7:
+		return " " + base
 	case 2:
 		up := strings.ToUpper(base)
 		if up != base {
@@ -374,7 +548,22 @@ func runPlan(w *tr.W, rng *rand.Rand, name string, steps []planStep) {
 	if len(steps) == 0 || steps[0].Op != "init" {
 		tr.Fatal("plan %s does not start with init", name)
 	}
-	in := newInst(w, rng, steps[0].regime, "plan:"+name)
+	g := steps[0].regime
+	seen := map[pair]bool{}
+	for _, s := range steps[1:] {
+		if s.Op == "send" || s.Op == "verify" {
+			seen[pair{str(s.P.Area), str(s.P.Phone)}] = true
+		}
+	}
+	switch rng.Intn(3) {
+	case 0:
+		g.cache = int64(len(seen)) // exactly as many entries as pairs: nothing may be evicted
+	case 1:
+		g.cache = math.MaxInt64
+	}
+	g.extreme = true
+	in := newInst(w, rng, g, "plan:"+name, rng.Intn(2) == 0)
+	defer in.flush()
 	for _, s := range steps[1:] {
 		p := pair{str(s.P.Area), str(s.P.Phone)}
 		switch s.Op {
@@ -391,15 +580,38 @@ func runPlan(w *tr.W, rng *rand.Rand, name string, steps []planStep) {
 
 // ---------------------------------------------------------------- seeded histories
 func randRegime(rng *rand.Rand) regime {
-	lens := []int{1, 2, 3, 4, 4, 6, 6, 8, 12}
+	lens := []int{0, 1, 1, 2, 3, 4, 4, 6, 6, 8, 12, 33, 100}
 	g := regime{Mock: rng.Intn(2) == 0, Len: lens[rng.Intn(len(lens))], TTL: rng.Intn(4) != 0,
-		Gap: rng.Intn(3) != 0, Win: rng.Intn(2) == 0, MaxCount: rng.Intn(5), MaxVerify: rng.Intn(6)}
+		Gap: rng.Intn(3) != 0, Win: rng.Intn(2) == 0, MaxCount: rng.Intn(5), MaxVerify: rng.Intn(6),
+		extreme: true}
+	// ends of the integer range and negative limits (logged clamped: no history is that long)
+	switch rng.Intn(12) {
+	case 0:
+		g.MaxCount = -1
+	case 1:
+		g.MaxCount = math.MaxInt
+	case 2:
+		g.MaxCount = math.MinInt
+	}
+	switch rng.Intn(12) {
+	case 0:
+		g.MaxVerify = -1
+	case 1:
+		g.MaxVerify = math.MaxInt
+	case 2:
+		g.MaxVerify = math.MinInt
+	}
 	return g
 }
 
 func randPairs(rng *rand.Rand) []pair {
 	// always the two pairs that concatenate alike, plus a random selection
 	ps := []pair{{"1", "23"}, {"12", "3"}}
+	if rng.Intn(3) == 0 { // more pairs whose concatenation is the same string
+		fam := [][]pair{{{"", "123"}, {"123", ""}}, {{"8", "61380013"}, {"86", "1380013"}},
+			{{"", "8613800"}, {"86", "13800"}}}[rng.Intn(3)]
+		ps = append(ps, fam...)
+	}
 	n := rng.Intn(5)
 	for i := 0; i < n; i++ {
 		p := pair{areasA[rng.Intn(len(areasA))], phonesA[rng.Intn(len(phonesA))]}
@@ -419,16 +631,29 @@ var refs = []string{"cur", "cur", "cur", "cur", "old", "oth", "bad"}
 
 func runRandom(w *tr.W, rng *rand.Rand, nops int) {
 	g := randRegime(rng)
-	in := newInst(w, rng, g, "rand")
 	ps := randPairs(rng)
+	switch rng.Intn(3) {
+	case 0:
+		g.cache = int64(len(ps)) // exactly as many entries as pairs: nothing may be evicted
+	case 1:
+		g.cache = math.MaxInt64
+	}
+	in := newInst(w, rng, g, "rand", rng.Intn(2) == 0)
+	defer in.flush()
+	gwLeft := 3 // gateway failures per history (each one leaves the spec a choice)
 	// a focus pair gets most of the traffic so that limits are reached
-	for i := 0; i < nops; i++ {
+	for i := 0; i < nops && !in.dead; i++ {
 		p := ps[0]
 		if rng.Intn(3) == 0 {
 			p = ps[rng.Intn(len(ps))]
 		}
 		if rng.Intn(100) < 35 {
-			in.send(p)
+			gw := ""
+			if !g.Mock && gwLeft > 0 && rng.Intn(12) == 0 {
+				gw = []string{"err", "status", "own", "panic"}[rng.Intn(4)]
+				gwLeft--
+			}
+			in.sendVia(p, gw)
 			continue
 		}
 		cref, href := refs[rng.Intn(len(refs))], refs[rng.Intn(len(refs))]
@@ -443,7 +668,9 @@ func runRandom(w *tr.W, rng *rand.Rand, nops int) {
 func runGuess(w *tr.W, rng *rand.Rand) {
 	g := regime{Mock: rng.Intn(2) == 0, Len: 1 + rng.Intn(2), TTL: true, Gap: true, Win: false,
 		MaxCount: 1, MaxVerify: rng.Intn(8)}
-	in := newInst(w, rng, g, "guess")
+	g.cache = 1 // one pair, one entry
+	in := newInst(w, rng, g, "guess", rng.Intn(2) == 0)
+	defer in.flush()
 	p := pair{"86", phonesA[rng.Intn(len(phonesA))]}
 	in.send(p)
 	n := g.MaxVerify + 3
@@ -459,23 +686,56 @@ func runGuess(w *tr.W, rng *rand.Rand) {
 	}
 }
 
+// twins: one caller, one Config value and one gateway shared by two logics (what a service with two
+// endpoints does).  Each logic must behave as if it were alone: its calls are recorded into a trace
+// of its own, the calls of the two are interleaved.
+func runTwin(w *tr.W, rng *rand.Rand, nops int) {
+	g := randRegime(rng)
+	ps := randPairs(rng)
+	if len(ps) > 3 {
+		ps = ps[:3]
+	}
+	if rng.Intn(2) == 0 {
+		g.cache = int64(len(ps))
+	}
+	cfg, raw, tiny := g.config(rng)
+	sms := &fakeSMS{}
+	a := newInstOn(w, rng, g, "twin-a", true, cfg, raw, tiny, sms)
+	b := newInstOn(w, rng, g, "twin-b", true, cfg, raw, tiny, sms)
+	for i := 0; i < nops && !a.dead && !b.dead; i++ {
+		in := a
+		if rng.Intn(2) == 0 {
+			in = b
+		}
+		p := ps[rng.Intn(len(ps))]
+		if rng.Intn(100) < 40 {
+			in.send(p)
+			continue
+		}
+		cref, href := "cur", "cur"
+		if rng.Intn(3) == 0 {
+			cref, href = refs[rng.Intn(len(refs))], refs[rng.Intn(len(refs))]
+		}
+		in.verify(p, in.refCode(p, cref), in.refHash(p, href), cref, href)
+	}
+	a.flush()
+	b.flush()
+}
+
 // ---------------------------------------------------------------- alphabet samples
 // codes handed to the SMS gateway: at least `chars` characters in total
 func runCodeSample(w *tr.W, rng *rand.Rand, codeLen, chars int) {
 	g := regime{Mock: false, Len: codeLen, TTL: true, Gap: true, Win: false, MaxCount: 0, MaxVerify: 2}
-	in := newInst(w, rng, g, "sample")
+	in := newInst(w, rng, g, "sample", false)
 	ps := []pair{{"86", "13800138000"}, {"1", "5550100"}, {"49", "15112345678"}}
 	total := 0
-	for i := 0; total < chars; i++ {
+	for i := 0; total < chars && !in.dead; i++ {
 		p := ps[i%len(ps)]
 		in.send(p)
-		if len(in.sms.got) != 1 {
+		if len(in.sms.got) != 1 || len(in.sms.got[0].code) != codeLen {
 			break // the spec has already been given a line it rejects
 		}
 		total += len(in.sms.got[0].code)
-		if i > 100*chars {
-			tr.Fatal("code sample does not grow")
-		}
 	}
 	w.Emit(tr.E{"ev": "cover", "what": "codes", "alpha": tr.Str(digits), "chars": total})
 }
@@ -491,19 +751,17 @@ func runNonceSample(w *tr.W, rng *rand.Rand, fn, alpha string, n int) {
 		if rng.Intn(10) == 0 {
 			k = rng.Intn(3) // also tiny outputs, including the empty one
 		}
-		var out, pan string
-		func() {
-			defer func() {
-				if x := recover(); x != nil {
-					pan = fmt.Sprintf("panic: %v", x)
-				}
-			}()
+		var out string
+		pan, _ := guard(func() {
 			if fn == "sec" {
 				out = random.SecGenNonceStr(alpha, k)
 			} else {
 				out = random.GenNonceStr(alpha, k)
 			}
-		}()
+		})
+		if pan == "hang" {
+			out = "" // the abandoned call may still write it
+		}
 		w.Emit(tr.E{"ev": "nonce", "fn": fn, "alpha": tr.Str(alpha), "n": k, "out": tr.Str(out),
 			"panic": pan != "", "msg": pan})
 		if pan != "" {
@@ -521,6 +779,7 @@ func main() {
 	seed := flag.Int64("seed", 1, "seed")
 	nrand := flag.Int("rand", 300, "random histories")
 	nguess := flag.Int("guess", 100, "guessing histories")
+	ntwin := flag.Int("twin", 60, "twin histories (two logics on one Config and gateway)")
 	maxops := flag.Int("maxops", 60, "max ops per random history")
 	nsample := flag.Int("nsample", 1, "code samples per code length")
 	chars := flag.Int("chars", 12000, "characters per code sample")
@@ -533,30 +792,42 @@ func main() {
 		files, _ := filepath.Glob(filepath.Join(*plans, "*.ndjson"))
 		sort.Strings(files)
 		for _, f := range files {
+			if hung {
+				break
+			}
 			runPlan(w, rng, filepath.Base(f), readPlan(f))
 		}
 	}
-	for i := 0; i < *nrand; i++ {
+	for i := 0; i < *nrand && !hung; i++ {
 		runRandom(w, rng, 10+rng.Intn(*maxops))
 	}
-	for i := 0; i < *nguess; i++ {
+	for i := 0; i < *nguess && !hung; i++ {
 		runGuess(w, rng)
+	}
+	for i := 0; i < *ntwin && !hung; i++ {
+		runTwin(w, rng, 10+rng.Intn(*maxops))
 	}
 	w.Close()
 
 	sw := tr.Create(*sample)
 	sw.NoSync = true
-	for i := 0; i < *nsample; i++ {
+	for i := 0; i < *nsample && !hung; i++ {
 		for _, l := range []int{6, 4, 40} {
-			runCodeSample(sw, rng, l, *chars)
+			if !hung {
+				runCodeSample(sw, rng, l, *chars)
+			}
 		}
 	}
 	for _, fn := range []string{"sec", "plain"} {
 		for _, alpha := range []string{digits, "ab", "x", "ACGT", "0123456789abcdef",
 			"abcdefghijklmnopqrstuvwxyzABCDEFGHIJKLMNOPQRSTUVWXYZ0123456789"} {
-			runNonceSample(sw, rng, fn, alpha, 96+rng.Intn(64))
+			if !hung {
+				runNonceSample(sw, rng, fn, alpha, 96+rng.Intn(64))
+			}
 		}
 	}
 	sw.Close()
-	fmt.Printf("call_events=%d sample_events=%d\n", w.N(), sw.N())
+	fmt.Printf("call_events=%d sample_events=%d hung=%v\n", w.N(), sw.N(), hung)
+	// a hung call is still spinning in its goroutine: leave at once (the traces are complete)
+	os.Exit(0)
 }
